@@ -128,6 +128,7 @@ class AudioSim(AoefSim):
             "load_recording": self.do_load_recording,
             "resample": self.do_derive,
             "spectrogram": self.do_derive,
+            "scribble": self.do_scribble,
         }.get(kind)
         if handler is None:
             return super()._apply(op)
@@ -475,12 +476,29 @@ class AudioSim(AoefSim):
                     "C15", "C15:time-coord",
                     "load_recording: frame i does not carry time i/samplerate",
                 )
-        rec["whole"] = {"version": st["version"], "data": data}
+        rec["whole"] = {"version": st["version"], "data": data, "h": op["h"]}
         self.arrays[op["h"]] = {
             "node": op["node"], "alive": True, "kind": "recording",
             "first": 0.0 if shape[0] else None, "step": entry["step"],
             "n": shape[0],
         }
+
+    def do_scribble(self, op):
+        """A caller normalises / overwrites in place what an earlier call
+        returned; later loads must still return the file's frames."""
+        src = self.arrays.get(op["src"])
+        if src is None or not src["alive"]:
+            return self.record(op, "skipped")
+        node = self.node(src["node"])
+        reply = node.call("a_scribble", handle=op["src"], _env=self.env_audio(None))
+        self.record(op, reply["outcome"])
+        self.trace.append(("scribble", src["kind"], reply["outcome"]))
+        if reply["outcome"] == "ack":
+            self.probes.hit("C15:returned-array-modified-in-place")
+            for rec in self.recs.values():
+                whole = rec.get("whole")
+                if whole is not None and whole.get("h") == op["src"]:
+                    rec["whole"] = None  # our copy is independent, but be exact
 
     # --------------------------------------------------- resample, spectrogram
 
@@ -662,7 +680,7 @@ def gen_ops(rng, cfg, seed_tag):
 
     while len(ops) < cfg["max_ops"]:
         pat = rng.choice(["basic", "basic", "eof", "grow", "derived", "fault",
-                          "restart", "tiny", "tear"])
+                          "restart", "tiny", "tear", "scribble"])
         if not files or rng.random() < 0.25:
             create()
         f = rng.choice(sorted(files))
@@ -706,6 +724,17 @@ def gen_ops(rng, cfg, seed_tag):
         elif pat == "restart":
             ops.append({"op": "restart", "node": node()})
             load_clip(r)
+        elif pat == "scribble":
+            # load, modify the returned array in place, load the same again
+            n = node()
+            first = load_clip(r) if rng.random() < 0.6 else load_recording(r)
+            ops[-1]["node"] = n
+            ops.append({"op": "scribble", "src": first})
+            again = dict(ops[-2], h=h())
+            ops.append(again)
+            if rng.random() < 0.5:
+                load_recording(r)
+                ops[-1]["node"] = n
         elif pat == "tiny":
             f2, rec_sr = recs[r]
             k = rng.randint(0, files[f2][1] + 2)
@@ -786,6 +815,7 @@ CORE_PROBES = {
         "C15:spectrogram-checked",
         "C15:spectrogram-fractional-window-or-hop",
         "C15:clip-vs-recording-compared",
+        "C15:returned-array-modified-in-place",
         "file:truncated-payload",
         "file:grown",
         "file:grown-header-stale",
